@@ -273,61 +273,26 @@ def check_function(rep, f, kids, kind, reflexive, control=False):
 
 def always_checked(rep):
     """CHECKS-ALWAYS-RUN: (a) in the two attempt functions of the MTest solver every path to a return that is not a failure
-    (a literal {false, ...} or a variable whose .first was decided false) passes through Study::postConvergence, which runs the
+    (a literal {false, ...} or a variable whose .first was decided false) and that GenericSolver::execute accepts (its acceptance
+    test is read from execute and evaluated per valuation of its atoms) passes through Study::postConvergence, which runs the
     @Test checks: an accepted step is never left unchecked; (b) MTest::postConvergence calls check on every registered test,
     unconditionally."""
     us = [os.path.join(REPO, "mtest/src", x) for x in ("GenericSolver.cxx", "MTest.cxx")]
     d = cfgdump(us, os.path.join(OUT, "C51", "solver"), funcs=r"^mtest::(iterate2?|MTest::postConvergence)$")
     funcs = [f for f in load_functions(d) if f.parent is None and f.entry is not None]
-    its = [f for f in funcs if f.qname in ("mtest::iterate", "mtest::iterate2")]
-    if len(its) != 2:
-        raise AnalysisBroken("mtest::iterate / iterate2 not found (%d)" % len(its))
-    for f in its:
-        def atom(f_, s):
-            n = f_.stmts.get(s)
-            if n is not None and n["k"] == "MemberExpr" and n.get("member") == "first":
-                return (("ok", f_.text(f_.kids(s)[0])), False)
-            return None
-        bad = []
-        nret = [0]
-
-        def el(st, b, i, e):
-            if "s" not in e:
-                return (st,)
-            s = e["s"]
-            n = f.stmts[s]
-            facts, done = st
-            if n["k"] == "CXXMemberCallExpr" and (n.get("callee") or "").endswith("::postConvergence"):
-                return ((facts, True),)
-            if n["k"] == "ReturnStmt":
-                nret[0] += 1
-                if not done:
-                    v = f.kids(s)
-                    t = f.text(v[0]) if v else ""
-                    refs = sorted(set(f.stmts[x]["name"] for x in f.walk(s) if f.stmts[x]["k"] == "DeclRefExpr" and f.stmts[x].get("local")))
-                    if len(refs) == 1:
-                        t = refs[0]         # 'return r;' (copy of a local result)
-                    fx = dict(facts)
-                    lit = [f.stmts[x].get("value") for x in f.walk(s) if f.stmts[x]["k"] == "CXXBoolLiteralExpr"]
-                    failure = (lit[:1] == [False] or lit[:1] == [0] or str(lit[:1]) in ("['false']",)) or fx.get(("ok", t)) is False
-                    if not failure:
-                        bad.append((s, t))
-            return (st,)
-
-        def ed(st, b, succ, pol):
-            facts, done = st
-            fx = branch(f, b, pol, dict(facts), atom)
-            if fx is None:
-                return ()
-            return ((tuple(sorted(fx.items(), key=repr)), done),)
-        forward(f, (((), False),), el, ed)
-        rep.count("return statements of the attempt functions", nret[0])
-        if bad:
-            s, t = bad[0]
-            rep.fail("CHECKS-ALWAYS-RUN@%s" % f.qname, "%s: %s can return %s (not a failure) on a path that does not call Study::postConvergence: "
-                     "the step is accepted and written to the output although its @Test checks did not run" % (f.short_loc(s).replace(REPO + "/", ""), f.qname, t))
+    # (a) relational: for every valuation of the atoms of execute's acceptance test under which the attempt is accepted, no path of an
+    # attempt function returns a success without Study::postConvergence (rules/attempts.py)
+    import attempts
+    ar = attempts.analyse()
+    for q, o_ in sorted(ar["funcs"].items()):
+        rep.count("return statements of the attempt functions", o_["returns"])
+        if o_["unchecked_when_accepted"]:
+            V, loc = o_["unchecked_when_accepted"][0]
+            rep.fail("CHECKS-ALWAYS-RUN@%s" % q, "%s: %s can return a success without calling Study::postConvergence when %s, and GenericSolver::execute "
+                     "(%s) accepts that attempt: the step is committed and written to the output although its @Test checks did not run"
+                     % (loc.replace(REPO + "/", ""), q, attempts.describe(V), ar["loc"].replace(REPO + "/", "")))
         else:
-            rep.ok("%s: every return that is not a failure passes through Study::postConvergence (the @Test checks)" % f.qname)
+            rep.ok("%s: every attempt that execute accepts passes through Study::postConvergence (the @Test checks)" % q)
     pc = [f for f in funcs if f.qname == "mtest::MTest::postConvergence"]
     if not pc:
         raise AnalysisBroken("MTest::postConvergence not found")
